@@ -256,6 +256,32 @@ fn inner(t: &mut Tape, rep: &mut WorldReport) {
     let hlen = t.weighted(&[1, 4, 3, 2, 1]);
     let mut history: Vec<HistItem> = (0..hlen).map(|_| mk_item(t, false)).collect();
     let target = mk_item(t, true);
+    // a *sibling request* as the last thing the instance saw before the target: the same
+    // template and arguments, except that every Bytes argument has other content of the same
+    // length (another witness script, another metadata blob) - or the very same request. Whatever
+    // an instance remembers of a transaction under too coarse a key is hit exactly by this.
+    let mut hlen = hlen;
+    if t.chance(1, 3) {
+        let mut sib_args = target.args.clone();
+        if t.chance(3, 4) {
+            for (_, v) in sib_args.iter_mut() {
+                if let tx3_tir::reduce::ArgValue::Bytes(b) = v {
+                    for x in b.iter_mut() {
+                        *x ^= 0x5A;
+                    }
+                }
+            }
+        }
+        history.push(HistItem {
+            tx: target.tx.clone(),
+            name: format!("{} (sibling request)", target.name),
+            args: sib_args,
+            max_rounds: target.max_rounds,
+            ending: Ending::Natural,
+        });
+        hlen += 1;
+        rep.fire("sibling-request-before-target");
+    }
     let sweep = hlen > 0 && t.chance(1, 4);
     let target_min_utxo = uses_min_utxo(&target.tx);
 
